@@ -163,6 +163,22 @@ theorem totalDeposits_setDeposit {s : State} (h : Tbl.Nodup s.deposits) (a : Add
   rw [Tbl.sumKV_set _ h]
   cases s.deposits.get a <;> simp [Coins.amountOf_nil]
 
+theorem totalDeposits_deleteDeposit {s : State} (h : Tbl.Nodup s.deposits) (a : Addr) (d : Denom) :
+    totalDeposits (deleteDeposit s a) d = totalDeposits s d - ((getDeposit s a).getD []).amountOf d := by
+  unfold totalDeposits deleteDeposit getDeposit
+  simp only []
+  rw [Tbl.sumKV_erase _ h]
+  cases s.deposits.get a <;> simp [Coins.amountOf_nil]
+
+theorem totalDeposits_putDeposit {s : State} (h : Tbl.Nodup s.deposits) (a : Addr) (cs : Coins) (d : Denom) :
+    totalDeposits (putDeposit s a cs) d
+      = totalDeposits s d - ((getDeposit s a).getD []).amountOf d + cs.amountOf d := by
+  unfold putDeposit
+  split
+  · rename_i hz
+    rw [totalDeposits_deleteDeposit h, Coins.amountOf_of_isZero hz]; omega
+  · exact totalDeposits_setDeposit h a cs d
+
 theorem supplyOf_frame {s s' : State} (h : s'.supply = s.supply) (d : Denom) : supplyOf s' d = supplyOf s d := by
   unfold supplyOf; rw [h]
 
@@ -192,6 +208,29 @@ theorem depNonneg_setDeposit {s : State} (hi : ∀ a cs, s.deposits.get a = some
   by_cases h : a = a'
   · simp only [h, if_true, Option.some.injEq] at hg; rw [← hg]; exact hcs
   · simp only [h, if_false] at hg; exact hi a' cs' hg
+
+theorem depNonneg_putDeposit {s : State} (hi : ∀ a cs, s.deposits.get a = some cs → Coins.Nonneg cs) (a : Addr) (cs : Coins)
+    (hcs : Coins.Nonneg cs) : ∀ a' cs', (putDeposit s a cs).deposits.get a' = some cs' → Coins.Nonneg cs' := by
+  unfold putDeposit
+  split
+  · intro a' cs' hg
+    unfold deleteDeposit at hg
+    simp only [Tbl.get_erase] at hg
+    split at hg
+    · contradiction
+    · exact hi a' cs' hg
+  · exact depNonneg_setDeposit hi a cs hcs
+
+theorem depNodup_putDeposit {s : State} (h : Tbl.Nodup s.deposits) (a : Addr) (cs : Coins) :
+    Tbl.Nodup (putDeposit s a cs).deposits := by
+  unfold putDeposit
+  split
+  · exact Tbl.nodup_erase h _
+  · exact Tbl.nodup_set h _ _
+
+theorem putDeposit_frame (s : State) (a : Addr) (cs : Coins) :
+    putDeposit s a cs = { s with deposits := (putDeposit s a cs).deposits } := by
+  unfold putDeposit; split <;> rfl
 
 /-- `SendCoinsFromAccountToDeposit`. -/
 theorem depositAdd_inv {s s' : State} {f t : Addr} {c : Coin} (h : depositAdd s f t c = .ok s') (hi : MoneyInv σ s)
@@ -227,11 +266,11 @@ theorem depositAdd_inv {s s' : State} {f t : Addr} {c : Coin} (h : depositAdd s 
   · exact (sendCoins_frame hs1).trans rfl
 
 /-- Common core of `SendCoinsFromDepositToAccount` / `…ToModule`: the record shrinks by what the
-escrow account pays out. -/
+escrow account pays out (and is deleted when nothing is left). -/
 theorem depositOut_inv {s s1 : State} {f t : Addr} {c : Coin} {cur : Coins} {e : Event}
     (hs1 : sendCoins s depositAddr t c = .ok s1) (hcur : getDeposit s f = some cur)
     (hneg : (cur.sub c).isAnyNegative = false) (hi : MoneyInv σ s) (ht : t ≠ depositAddr) :
-    MoneyInv σ (emit (setDeposit s1 f (cur.sub c)) e) ∧ MoneyFrame s (emit (setDeposit s1 f (cur.sub c)) e) := by
+    MoneyInv σ (emit (putDeposit s1 f (cur.sub c)) e) ∧ MoneyFrame s (emit (putDeposit s1 f (cur.sub c)) e) := by
   obtain ⟨hb, hfr, hn⟩ := sendCoins_ok hs1
   obtain ⟨hn1, hn2⟩ := hn hi.bankNodup
   have hdep : s1.deposits = s.deposits := by rw [hfr]
@@ -239,24 +278,40 @@ theorem depositOut_inv {s s1 : State} {f t : Addr} {c : Coin} {cur : Coins} {e :
   have hnd1 : Tbl.Nodup s1.deposits := by rw [hdep]; exact hi.depNodup
   have hnn : Coins.Nonneg (cur.sub c) := Coins.nonneg_of_not_anyNegative hneg
   have hcur1 : getDeposit s1 f = some cur := by unfold getDeposit; rw [hdep]; exact hcur
-  refine ⟨⟨?_, ?_, ?_, ?_, ?_, ?_, hsup.trans hi.supplyEq⟩, ?_⟩
+  have hpf := putDeposit_frame s1 f (cur.sub c)
+  have hbank : (putDeposit s1 f (cur.sub c)).bank = s1.bank := by rw [hpf]
+  have hsup2 : (putDeposit s1 f (cur.sub c)).supply = s1.supply := by rw [hpf]
+  have hpa : (putDeposit s1 f (cur.sub c)).planActive = s1.planActive := by rw [hpf]
+  have hpi : (putDeposit s1 f (cur.sub c)).planInactive = s1.planInactive := by rw [hpf]
+  refine ⟨⟨?_, ?_, ?_, ?_, ?_, ?_, ?_⟩, ?_⟩
   · intro d
-    show balance (setDeposit s1 f (cur.sub c)) depositAddr d = totalDeposits (setDeposit s1 f (cur.sub c)) d
-    rw [totalDeposits_setDeposit hnd1, Coins.amountOf_sub, hcur1]
-    have e1 : balance (setDeposit s1 f (cur.sub c)) depositAddr d = balance s1 depositAddr d := rfl
+    show balance (putDeposit s1 f (cur.sub c)) depositAddr d = totalDeposits (putDeposit s1 f (cur.sub c)) d
+    rw [totalDeposits_putDeposit hnd1, Coins.amountOf_sub, hcur1]
+    have e1 : balance (putDeposit s1 f (cur.sub c)) depositAddr d = balance s1 depositAddr d := by
+      unfold balance; rw [hbank]
     have e2 : totalDeposits s1 d = totalDeposits s d := by unfold totalDeposits; rw [hdep]
     rw [e1, hb, e2, ← hi.backed d]
     simp [ht]
-  · exact Tbl.nodup_set hnd1 _ _
-  · exact depNonneg_setDeposit (by intro a cs hg; rw [hdep] at hg; exact hi.depNonneg a cs hg) _ _ hnn
-  · exact hn1
+  · exact depNodup_putDeposit hnd1 _ _
+  · exact depNonneg_putDeposit (by intro a cs hg; rw [hdep] at hg; exact hi.depNonneg a cs hg) _ _ hnn
+  · show Tbl.Nodup (putDeposit s1 f (cur.sub c)).bank
+    rw [hbank]; exact hn1
   · intro d
-    show supplyOf s1 d = bankTotal s1 d
-    rw [hn2, supplyOf_frame hsup]; exact hi.supplyOK d
+    show supplyOf (putDeposit s1 f (cur.sub c)) d = bankTotal (putDeposit s1 f (cur.sub c)) d
+    unfold supplyOf bankTotal
+    rw [hbank, hsup2]
+    have := hi.supplyOK d
+    unfold supplyOf at this
+    rw [hsup, this, ← hn2 d]; rfl
   · intro id p hp
-    have hp' : s1.planActive.get id = some p ∨ s1.planInactive.get id = some p := hp
-    rw [(sendCoins_frame hs1).plans.1, (sendCoins_frame hs1).plans.2] at hp'; exact hi.provOK id p hp'
-  · exact (sendCoins_frame hs1).trans rfl
+    have hp' : (putDeposit s1 f (cur.sub c)).planActive.get id = some p ∨ (putDeposit s1 f (cur.sub c)).planInactive.get id = some p := hp
+    rw [hpa, hpi, (sendCoins_frame hs1).plans.1, (sendCoins_frame hs1).plans.2] at hp'; exact hi.provOK id p hp'
+  · show (putDeposit s1 f (cur.sub c)).supply = σ
+    rw [hsup2, hsup]; exact hi.supplyEq
+  · refine (sendCoins_frame hs1).trans ?_
+    unfold MoneyFrame
+    show emit (putDeposit s1 f (cur.sub c)) e = _
+    rw [hpf]; rfl
 
 theorem isBlocked_depositAddr : isBlocked depositAddr = true := by decide
 
